@@ -20,7 +20,9 @@ THEOREMS = {
         "Dawgs.C04.Sites.format_write_sites_covered", "Dawgs.C04.Sites.format_helpers_in_place", "Dawgs.C04.Sites.format_table_nonempty",
         "Dawgs.C04.Sites.translate_sites_classified", "Dawgs.C04.Sites.symbols_never_rewritten", "Dawgs.C04.Sites.rows_all_live", "Dawgs.C04.Sites.user_text_rows_escaped",
         "Dawgs.C04.Sites.const_rows_are_const", "Dawgs.C04.Sites.known_findings_are_rows", "Dawgs.C04.Sites.like_guards",
-        "Dawgs.C04.Sites.sites_table_nonempty",
+        "Dawgs.C04.Sites.sites_table_nonempty", "Dawgs.C04.Sites.unguarded_rows_named", "Dawgs.C04.Sites.outside_rows_no_finding", "Dawgs.C04.Sites.guard_calls_in_place",
+        "Dawgs.C04.Sites.guard_ascii_table", "Dawgs.C04.Sites.guard_shape", "Dawgs.C04.Sites.builder_accepts_bare",
+        "Dawgs.C04.Sites.builder_name_one_token",
     ],
 }
 
@@ -85,7 +87,20 @@ def extra_coverage(ctx, stats):
     sites = {s: dict(sorted(c.items())) for s, c in sorted(hist.items())}
     reached = sorted(s for s, c in hist.items() if c.get("ok reached", 0) or any(k.startswith("reject") for k in c))
     renamed = sorted(s for s, c in hist.items() if c.get("ok unreached", 0) and not c.get("ok reached", 0) and not any(k.startswith("reject") for k in c))
-    return {"per_site": sites, "sites_reaching_sql_text": reached, "sites_never_reaching_sql_text": renamed}
+    # positions outside the property's quantifier: recorded, never rejected
+    outside = {}
+    ops_p = ctx.path("c04.ops")
+    if os.path.exists(p) and os.path.exists(ops_p):
+        for op, l in zip(open(ops_p, errors="replace"), open(p, errors="replace")):
+            if l.startswith("ok outside-quantifier"):
+                site = _field(l, "site") or "-"
+                o = outside.setdefault(site, {"site": site, "count": 0, "replay_op": op.strip()[:300],
+                                              "how_to_replay": "./check C04 --replay <file with {\"suite\": \"c04\", \"ops\": [\"# case obs\", <replay_op>]}> (prints both SQL texts and the monitor's line)",
+                                              "observed": l.split(" tmpl=", 1)[-1].strip()[:400],
+                                              "why_outside": "driver batch API argument (graph.NodeUpdate / RelationshipUpdate IdentityProperties), not a position of an accepted query"})
+                o["count"] += 1
+    return {"per_site": sites, "sites_reaching_sql_text": reached, "sites_never_reaching_sql_text": renamed,
+            "observations": {"outside_quantifier": sorted(outside.values(), key=lambda o: o["site"])}}
 
 
 SPEC = {
@@ -110,9 +125,12 @@ SPEC = {
             "nested map literals are rejected by the translator today), property key incl. back-ticked, map key, kind name, variable name, result alias, parameter name, supplied parameter "
             "value bound (string, list, JSONB map incl. nested values and map keys) and materialised, text reaching the SQL handed to the shortest-path functions as bound parameter and as nested literal) x hostile "
             "strings (fixed list of quotes, backslashes, comment openers, dollar quotes, @name, semicolons, NUL-free control characters, non-BMP runes, "
-            "64 KiB strings, trailing backslash/quote; plus random fragment concatenations from splitmix64(VERIF_SEED)) x Cypher encodings (single-quoted, "
+            "64 KiB strings, trailing backslash/quote, one name per ASCII non-identifier character and per Unicode symbol/punctuation/mark/number category; plus random fragment concatenations from splitmix64(VERIF_SEED)) x Cypher encodings (single-quoted, "
             "double-quoted, escape sequences, bare, back-ticked); each case translates the hostile query and a benign twin with the real code and the Lean "
-            "lexer compares the two SQL texts; non-trivial = both twins were translated; distinct = distinct op lines. suite c04q: every generated string "
+            "lexer compares the two SQL texts; a second family feeds the same texts to every name- and value-taking function of the query builders (query/v2 As, NewScope, "
+            "Variable, NamedParameter, kinds, property names, SetProperties/RemoveProperties, values; query Variable, NodeProperty, values) and of the pg driver's "
+            "statement builders without passing the Cypher lexer: the builder refuses the text or the emitted SQL is judged the same way (the identity property names of the "
+            "driver's upsert batches are outside the quantifier: run for information only, see observations.outside_quantifier); non-trivial = both twins were translated; distinct = distinct op lines. suite c04q: every generated string "
             "through the real formatValue / formatIdentifier / NewStringLiteral / decodeCypherStringLiteral / UnescapePropertyKeyName vs the Lean functions, exact equality",
     "expected_branches": ["translated.lit", "translated.key", "translated.ident", "translated.kindname", "translated.param", "translated.paramlist",
                           "rejected.ident", "decode.ok", "decode.err:decode-invalid-escape", "decode.err:decode-dangling", "decode.err:decode-bad-literal"],
@@ -154,5 +172,7 @@ MANIFEST = {
     "note": "Trusted: Lean kernel, the lexer's fidelity to scan.l (simplifications listed in the evidence), pgx's NamedArgs rewriter (count checked per case), the syntactic "
             "extractor goext c04. T-tie: every Write argument of the formatter and every identifier/alias/LIKE/nested-SQL/parameter/column-list construction site of the "
             "translator is regenerated per run and must be covered by a modelled quoting function, an exempt row with its reason, or a named known finding. "
-            "Known findings: case folding of unquoted aliases/variables at four sites, LIKE escaping applied to regex operands, LIKE operands not escaped under a function.",
+            "Observation (outside the quantifier, not a finding): drivers/pg/query formatConflictMatcher writes the identity property names of node/relationship update batches "
+            "between apostrophes without quote doubling — driver batch API, not query text; recorded in the evidence (observations.outside_quantifier) with a replay. "
+            "Known findings: case folding of unquoted aliases/variables at six sites (four translator sites, query/v2 aliases and scope aliases), LIKE escaping applied to regex operands, LIKE operands not escaped under a function.",
 }
